@@ -881,6 +881,26 @@ def pncexpr(expr, ifile, verbose=0):
             vardict[k] = getattr(ifile, k)
     # oldkeys = set(vardict.keys())
 
+    # statements that write into a variable ('A += 1', 'A[0] = 5') work on a
+    # copy: the result goes to the wrapper, the input file stays as it is
+    import ast
+    for node in ast.walk(ast.parse(expr)):
+        if isinstance(node, ast.AugAssign):
+            targets = [node.target]
+        elif isinstance(node, ast.Assign):
+            targets = [t for t in node.targets if not isinstance(t, ast.Name)]
+        else:
+            continue
+        for target in targets:
+            while isinstance(target, (ast.Subscript, ast.Attribute)):
+                target = target.value
+            vk = getattr(target, 'id', None)
+            if (
+                isinstance(vardict.get(vk, None), np.ndarray) and
+                any(vardict[vk] is v for v in filevars.values())
+            ):
+                vardict[vk] = vardict[vk].copy()
+
     # Assign expression to new variable.
     exec(comp, None, vardict)
 
@@ -890,9 +910,28 @@ def pncexpr(expr, ifile, verbose=0):
     assignedkeys = [k for k in assignedkeys if k in vardict]
     for key in assignedkeys:
         val = vardict[key]
+        # as in PseudoNetCDFFile.eval: a result that is (a view of) a
+        # variable of the input gets its own data, and the dimensions a
+        # result is stored with must describe its shape
+        if isinstance(val, np.ndarray) and any([
+            np.may_share_memory(val, v) for v in filevars.values()
+            if isinstance(v, np.ndarray)
+        ]):
+            val = val.copy()
+        isvar = isinstance(val, PseudoNetCDFVariable) and val.dimensions != ()
+        vdims = val.dimensions if isvar else dimt
+        dimlens = tuple([
+            len(ifile.dimensions[dk]) if dk in ifile.dimensions else None
+            for dk in vdims
+        ])
+        if tuple(np.shape(val)) != dimlens:
+            raise ValueError(
+                ('%s has shape %s, but the dimensions %s it would be ' +
+                 'stored with have lengths %s') %
+                (key, tuple(np.shape(val)), tuple(vdims), dimlens))
         # if the output variable has no dimensions, there is likely a problem
         # and the output should be defined.
-        if isinstance(val, (PseudoNetCDFVariable,)) and val.dimensions != ():
+        if isvar:
             tmpfile.variables[key] = val
         else:
             tmpfile.createVariable(key, val.dtype.char,
